@@ -54,7 +54,9 @@ Definition dispatch_graph (op : N) (args : list sx) : option sx :=
       option_map (fun m => match wbuild m with
                            | Ok g => SL [sx_bool (dag_check g);
                                          sx_list (fun n => SL [sx_str (n_id n); sx_wmap (spec_weights g (n_id n)); sx_list sx_str (spec_wildcards g (n_id n))])
-                                                 (filter (fun n => match n_type n with NTypeRel => true | _ => false end) (g_nodes g))]
+                                                 (filter (fun n => match n_type n with NTypeRel => true | _ => false end) (g_nodes g));
+                                         sx_bool (fuel_check g);
+                                         sx_bool (forallb (spec_accepts g) (default_order g))]
                            | _ => SL [SA 2; SL []]
                            end) (un_model m)
   | 500, [m] => option_map (fun m => sx_gresult (wbuild m)) (un_model m)
